@@ -13,6 +13,8 @@ pub struct RefTable {
     /// name -> (glibc, llvm)
     map: HashMap<String, (Option<i128>, Option<i128>)>,
     lower: HashMap<String, Vec<String>>,
+    /// hand-transcribed values for names the two headers do not define (refs/abi_spec_supplement.json)
+    supplement: HashMap<String, i128>,
 }
 
 pub fn load_ref() -> RefTable {
@@ -27,7 +29,14 @@ pub fn load_ref() -> RefTable {
         map.insert(k.clone(), (g, l));
         lower.entry(k.to_lowercase()).or_default().push(k.clone());
     }
-    RefTable { map, lower }
+    let p2 = verif_dir().join("refs").join("abi_spec_supplement.json");
+    let txt2 = std::fs::read_to_string(&p2).unwrap_or_else(|e| panic!("read {}: {e}", p2.display()));
+    let v2: Value = serde_json::from_str(&txt2).expect("abi_spec_supplement.json");
+    let mut supplement = HashMap::new();
+    for (k, e) in v2["constants"].as_object().expect("constants") {
+        supplement.insert(k.clone(), e["value"].as_i64().map(|x| x as i128).or(e["value"].as_u64().map(|x| x as i128)).expect("value"));
+    }
+    RefTable { map, lower, supplement }
 }
 
 #[derive(Debug, PartialEq)]
@@ -50,7 +59,10 @@ impl RefTable {
             }
         };
         match e {
-            None | Some((None, None)) => RefVal::Neither,
+            None | Some((None, None)) => match self.supplement.get(name) {
+                Some(v) => RefVal::Value(*v, "spec-supplement"),
+                None => RefVal::Neither,
+            },
             Some((Some(g), Some(l))) => {
                 if norm(g) == norm(l) {
                     RefVal::Value(g, "glibc+llvm")
@@ -75,7 +87,7 @@ struct Consts {
 }
 impl Space for Consts {
     fn name(&self) -> String {
-        "every exported integer constant of elf::abi vs the committed glibc/LLVM table".into()
+        "every exported integer constant of elf::abi vs the committed glibc/LLVM table and, for names neither header defines, the hand-transcribed specification supplement".into()
     }
     fn size(&self) -> u64 {
         ABI_CONSTS.len() as u64 + 2
